@@ -27,6 +27,10 @@ type C12Scenario struct {
 	Cap   int         `json:"cap"`
 	Ctrl  int         `json:"ctrl_cap"` // pipe/mq: capacity of the control list (-1: option not given = unbounded); other kinds ignore it
 	Tasks [][]qOp     `json:"tasks"`
+	// Burst > 0 (single client, unbounded queue): the program starts with Burst adds followed by BurstPops pops, so that the
+	// backing buffer grows past its initial size (and, for 1100, past any plausible "large backlog" threshold) and shrinks again
+	Burst     int `json:"burst"`
+	BurstPops int `json:"burst_pops"`
 }
 
 type qIn struct {
@@ -307,8 +311,28 @@ func drawC12(rt *rapid.T) interface{} {
 		}
 		sc.Tasks = append(sc.Tasks, ops)
 	}
+	if nt == 1 && sc.Cap == 0 && (sc.Kind == KSyncQ || sc.Kind == KQ || sc.Kind == KAsync || sc.Kind == KMux) && rapid.IntRange(0, 9).Draw(rt, "burst") == 0 {
+		sc.Burst = rapid.SampledFrom([]int{17, 33, 70, 70, 130, 1100}).Draw(rt, "burstn")
+		sc.BurstPops = rapid.SampledFrom([]int{sc.Burst, sc.Burst, sc.Burst - 1, sc.Burst / 2}).Draw(rt, "burstpops")
+	}
 	sc.Knobs = hx.DrawKnobs(rt, nil)
 	return sc
+}
+
+// burstOps is the prelude of a burst scenario (values from 100000 up, so they never collide with the program's own).
+func burstOps(sc *C12Scenario) []qOp {
+	var ops []qOp
+	for i := 0; i < sc.Burst; i++ {
+		ops = append(ops, qOp{Op: "add", V: 100000 + i})
+	}
+	pop := "popanyway"
+	if sc.Kind == KSyncQ {
+		pop = "trypop"
+	}
+	for i := 0; i < sc.BurstPops && i < sc.Burst; i++ {
+		ops = append(ops, qOp{Op: pop})
+	}
+	return ops
 }
 
 func doOp(q Queue, op qOp) qOut {
@@ -355,6 +379,10 @@ func runC12(t *testing.T, sci interface{}, keepLog bool) *hx.Outcome {
 		var ts []*simrt.Task
 		for ti, ops := range sc.Tasks {
 			ti, ops := ti, ops
+			if ti == 0 && sc.Burst > 0 {
+				ops = append(burstOps(sc), ops...)
+				s.Count("burst")
+			}
 			ts = append(ts, simrt.GoNamed(fmt.Sprintf("client%d", ti), func() {
 				me := simrt.Cur()
 				for _, op := range ops {
@@ -396,7 +424,7 @@ func runC12(t *testing.T, sci interface{}, keepLog bool) *hx.Outcome {
 		// final drain through the draining API: conservation
 		if q.Has("popanyway") || q.Has("trypop") {
 			drainClosed := false
-			for k := 0; k < 200; k++ {
+			for k := 0; k < 3000; k++ {
 				var op qOp
 				if q.Has("trypop") {
 					op = qOp{Op: "trypop"}
@@ -420,7 +448,7 @@ func runC12(t *testing.T, sci interface{}, keepLog bool) *hx.Outcome {
 			}
 		}
 	}
-	res := hx.RunSim(t, sc.Knobs.Config(keepLog, 40000), nil, main)
+	res := hx.RunSim(t, sc.Knobs.Config(keepLog, 40000+150*sc.Burst), nil, main)
 	o := hx.FromResult(res)
 	if o.Class == "" && res.Stuck {
 		o.Class, o.Msg = "stuck", "tasks never finished: "+hx.Unfinished(res)
